@@ -14,7 +14,7 @@ def impl_batch(case):
     out = []
     for net in case["nets"]:
         try:
-            out.append(flowlib.call_ff(net))
+            out.append(flowlib.call_ff(net, record_paths=case.get("paths", False)))
         except Exception as e:  # noqa
             out.append({"exc": type(e).__name__, "msg": str(e)[:200]})
     return {"results": out}
@@ -127,12 +127,13 @@ def shrink(net, fails):
 
 
 def run_batch(R, nets, tag, deadline):
-    cases = [{"nets": ch} for ch in chunks(nets, 200)]
+    mirror = bool(R.thorough) or tag in ("corpus", "replay")     # the dfs_path mirror: path sequence, flow dict and cut, exactly
+    cases = [{"nets": ch, "paths": mirror} for ch in chunks(nets, 200)]
     results = pmap("c08", "impl_batch", cases, deadline=deadline)
     flat = []
     for case, res in zip(cases, results):
         if "results" not in res:
-            singles = pmap("c08", "impl_batch", [{"nets": [N]} for N in case["nets"]], deadline=10.0)
+            singles = pmap("c08", "impl_batch", [{"nets": [N], "paths": mirror} for N in case["nets"]], deadline=60.0)
             flat += [s["results"][0] if "results" in s else {"hang": True} for s in singles]
         else:
             flat += res["results"]
@@ -146,6 +147,17 @@ def run_batch(R, nets, tag, deadline):
     cert_ans = dict(zip(idx, lean_query(cert_lines))) if cert_lines else {}
     for i, (N, r) in enumerate(zip(nets, flat)):
         judge(R, N, r, ff_ans[i], cert_ans.get(i), tag)
+    if mirror:
+        idx2 = [i for i, r in enumerate(flat) if "paths" in r]
+        # self loops are outside the mirror's validated domain only if the model answers `err wf`; compare everything else
+        ans2 = lean_query([flowlib.lean_ffdfs_line(nets[i]) for i in idx2])
+        for i, a in zip(idx2, ans2):
+            exp = flowlib.ffdfs_expected(nets[i], flat[i])
+            if a != exp:
+                R.corr_break("augmenting-path sequence, flow dict and cut = Lean mirror of dfs_path / ford_fulkerson (Dfs.ffDfs)", ENTRY, nets[i],
+                             {"paths": flat[i]["paths"], "flow": flat[i]["flow"], "cut": flat[i]["cut"]}, a)
+            else:
+                R.count("dfs_mirror_equal")
 
 
 def corpus():
@@ -154,7 +166,7 @@ def corpus():
 
 
 def run(R):
-    R.rule = ("random networks (<=8 vertices quick / <=14 thorough): sparse..complete, capacities incl. 0 and sys.maxsize, opposite "
+    R.rule = ("random networks (<=8 vertices quick / <=9 thorough): sparse..complete, capacities incl. 0 and sys.maxsize, opposite "
               "edge pairs, edges into s / out of t, arbitrary integer labels, rotation-poset-shaped networks (s=-1, t=-2, infinite arcs); "
               "thorough adds ALL 3-vertex networks with capacities {absent,0,1,2} and ALL 4-vertex networks with {absent,1,2}. "
               "Non-trivial = max flow > 0 and >= 3 edges; distinct by network.")
@@ -162,7 +174,9 @@ def run(R):
                      "the code's dfs_path is modelled by a reachability search whose result is checked at run time in the model"]
     for c in corpus():
         run_batch(R, [c["net"]], "corpus", 10.0)
-    run_batch(R, gen_random(R, 6000 if R.thorough else 900, 14 if R.thorough else 8), "random", 120.0)
+    # the code's path search enumerates simple paths (exponential in dense graphs), so sizes stay within the property's
+    # quantifier (up to 8 vertices; 9 in the thorough tier): beyond that slowness would be mistaken for non-termination
+    run_batch(R, gen_random(R, 6000 if R.thorough else 900, 9 if R.thorough else 8), "random", 300.0)
     if R.thorough:
         R.exhaustive = True
         run_batch(R, list(gen_exhaustive3()), "exhaustive3", 120.0)
